@@ -42,6 +42,15 @@ func (v *View) Print(n int) error {
 	}
 	end := begin + n
 
+	// The listing ends before the screen does. Show the end of the listing.
+	if l := v.Lines.Len(); end > l {
+		end = l
+		begin = end - n
+		if begin < 0 {
+			begin = 0
+		}
+	}
+
 	for i := begin; i < end; i++ {
 		fmt.Print(v.Format(i))
 	}
